@@ -457,6 +457,9 @@ def distributed_slice(chk, quick):
                                   % (P, nc, r, "".join(k), o["eval"].get(k, ["(not evaluable)"])[:4], ref["eval"][k][:4]),
                                   {"harness": "h_c06", "P": P, "commands": cmds, "model": C06.MODEL, "threads": 1})
                     break
+    # containers on communicators other than the world: groups of ranks fill and compute their OWN lists at the same time; every
+    # listed element must evaluate, on every rank of its group, to the single-rank value of that element (stage shared with C06)
+    C06.subcomm_stage(chk, h, True, chk.rng, set())
 
 
 def run(chk):
